@@ -70,6 +70,16 @@ def functions() -> list[Fn]:
             add(f"lsh_int_c{cn}", ["int"], "int", f"a << {c}", "<<", "const", const=c)
             add(f"rsh_int_c{cn}", ["int"], "int", f"a >> {c}", ">>", "const", const=c)
 
+    # results must be *normalised* tagged ints (a boxed value that would fit a short int breaks `==`, which
+    # tests tags first): compare the result with the expected value inside compiled code
+    for n, o in BINOPS.items():
+        add(f"norm_{n}_int", ["int", "int", "int"], "bool", f"(a {o} b) == c", o, "norm")
+    add("norm_neg_int", ["int", "int"], "bool", "(-a) == b", "neg", "norm")
+    add("norm_inv_int", ["int", "int"], "bool", "(~a) == b", "inv", "norm")
+    for t in FIXED:
+        add(f"norm_back_{t}", [t, "int"], "bool", "int(a) == b", "back", "norm", ftype=t)
+        add(f"norm_conv_{t}", ["int", "int"], "bool", f"int({t}(a)) == b", "conv", "norm", ftype=t)
+
     # ---- bool ---------------------------------------------------------------------------------------
     for n, o in BINOPS.items():
         ret = "bool" if n in ("and_", "or_", "xor") else "int"
@@ -148,7 +158,7 @@ def source(fns: list[Fn] | None = None) -> str:
     fns = functions() if fns is None else fns
     lines = ["from mypy_extensions import i64, i32, i16, u8", ""]
     for f in fns:
-        names = ["a", "b"][: len(f.params)]
+        names = ["a", "b", "c"][: len(f.params)]
         sig = ", ".join(f"{n}: {t}" for n, t in zip(names, f.params))
         lines.append(f"def {f.name}({sig}) -> {f.ret}:")
         for s in f.stmts:
